@@ -66,7 +66,7 @@ func newPipeline(w *world, cas blobstore.BlobAccess, ac blobstore.BlobAccess, ba
 	flush := func(ctx context.Context) error {
 		// Transparent wrapper: observes what the flusher reports.
 		err := flusher(ctx)
-		w.onFlushReturn(err)
+		w.onFlushReturn(ctx, err)
 		return err
 	}
 	var exec builder.BuildExecutor = &fakeLocal{w: w, writer: writer}
@@ -91,14 +91,14 @@ func (p *pipeline) runAction(cfg actionCfg) {
 	w.nextIdx++
 	ad := actionDigest(idx)
 	st := &actionState{idx: idx, cfg: cfg, cancel: cancel, key: w.protoKey(ad)}
-	w.cur = st
 	w.mu.Unlock()
+	ctx = withAction(ctx, st)
 	request := &remoteworker.DesiredState_Executing{
 		ActionDigest: ad,
 		Action:       &remoteexecution.Action{DoNotCache: cfg.dnc},
 	}
 	resp := p.exec.Execute(ctx, nil, nil, w.df, request, nil)
-	w.checkResponse(resp)
+	w.checkResponse(st, resp)
 }
 
 // leakGuard detects goroutines of the bubble that outlive the execution
@@ -152,7 +152,7 @@ func base(name string) *mc.Scenario {
 		Livelock:    []string{prop},
 		Panics:      []string{prop},
 		PreemptFree: true, // thread switches are free: every order of the concurrent Puts; deviations = injected faults
-		Bounds:      map[string]int{"quick": 2, "thorough": 3},
+		Bounds:      map[string]int{"quick": 2, "thorough": 4},
 	}
 }
 
@@ -222,13 +222,11 @@ func storeDirect(semWeight int) *mc.Scenario {
 			for i, round := range [][]string{r1, r2} {
 				ctx, cancel := context.WithCancel(context.Background())
 				st := &actionState{idx: i, cfg: actionCfg{blobs: round}, cancel: cancel}
-				w.mu.Lock()
-				w.cur = st
-				w.mu.Unlock()
+				ctx = withAction(ctx, st)
 				acked := 0
 				for _, name := range round {
-					if err := p.writer.Put(ctx, w.digests[name], w.newBuffer(name)); err == nil {
-						w.ackedPut(name)
+					if err := p.writer.Put(ctx, w.digests[name], w.newBuffer(ctx, name)); err == nil {
+						w.ackedPut(ctx, name)
 						acked++
 					}
 				}
@@ -237,6 +235,31 @@ func storeDirect(semWeight int) *mc.Scenario {
 				x.Outcome("r%d:%v acked=%d faults=%d flusherr=%v", i, round, acked, len(st.faults), err != nil)
 			}
 		})
+	}
+	sc.Finish = g.finish
+	return sc
+}
+
+// twoWorkers: two worker threads (runner concurrency 2 in main.go): each has
+// its own batching writer/flusher and executor stack, both share the global
+// CAS, the AC and the upload semaphore. Here thread switches count as
+// deviations too (preemption bound), together with the injected faults.
+func twoWorkers(batchSize, semWeight int) *mc.Scenario {
+	sc := base(fmt.Sprintf("two-workers/batch=%d/sem=%d", batchSize, semWeight))
+	sc.PreemptFree = false
+	sc.Bounds = map[string]int{"quick": 2, "thorough": 3}
+	var g leakGuard
+	sc.Build = func(x *mc.X) {
+		g.start()
+		x.AdoptAnonymous()
+		w := newWorld(x)
+		w.multi = true
+		cas, ac := &fakeCAS{w}, &fakeAC{fakeCAS{w}}
+		sem := semaphore.NewWeighted(int64(semWeight))
+		p1 := newPipeline(w, cas, ac, batchSize, sem)
+		p2 := newPipeline(w, cas, ac, batchSize, sem)
+		x.Go("worker1", func() { p1.runAction(actionCfg{blobs: []string{"A", "B"}}) })
+		x.Go("worker2", func() { p2.runAction(actionCfg{blobs: []string{"B", "C"}}) })
 	}
 	sc.Finish = g.finish
 	return sc
@@ -262,6 +285,7 @@ func TestMC(t *testing.T) {
 	for _, sem := range []int{1, 2} {
 		scenarios = append(scenarios, storeDirect(sem))
 	}
+	scenarios = append(scenarios, twoWorkers(1, 1), twoWorkers(2, 1), twoWorkers(2, 2))
 	scenarios = append(scenarios, mainWiring())
 	mc.Main(t, scenarios, nil)
 }
